@@ -320,7 +320,7 @@ class Run(object):
     def wrap(self, st, term, ty, backing=()):
         """wrap a raw term of static type ty into a value"""
         k = ty.kind
-        if k in ("int", "bool", "str", "val"):
+        if k in ("int", "bool", "str", "val", "map"):
             return term
         if k == "obj":
             return ObjV(term, ty.arg)
@@ -565,7 +565,7 @@ class Run(object):
             return FuncV("spec." + n)
         if self.spec_mode and n in self.engine.spec_imports:
             return ModuleV(self.engine.spec_imports[n])
-        if n in ("IndexError", "KeyError", "TypeError", "AttributeError", "PermissionError", "FileNotFoundError", "OSError", "Exception"):
+        if n in ("IndexError", "KeyError", "TypeError", "AttributeError", "PermissionError", "FileNotFoundError", "OSError", "Exception", "dict"):
             return ClassV("builtins." + n)
         if not self.spec_mode and node is not None and isinstance(getattr(node, "ctx", None), ast.Load):
             # a local that is not bound on this path: python raises UnboundLocalError (NameError)
@@ -603,6 +603,8 @@ class Run(object):
         if isinstance(base, ObjV) and attr == "__class__":
             # the dynamic class of an object is not tracked: its name is an uninterpreted string
             return DynClassV(base.term)
+        if isinstance(base, ObjV) and base.cls in ("builtins.dict", None) and attr in ("keys", "get"):
+            return FuncV("method." + attr, bound=base)
         if isinstance(base, ObjV):
             # method?
             if base.cls:
@@ -860,6 +862,12 @@ class Run(object):
             k = self.raw(st, idx)
             self.check(st, Select(base.keys, k), "KeyError", node)
             return self.wrap(st, Select(base.vals, k), base.vtype)
+        if isinstance(base, ObjV) and base.cls in ("builtins.dict", None) and isinstance(idx, T) and idx.sort == STR:
+            d = self.as_dict(st, base, node)
+            K, V = self.dict_arrays(st, d)
+            if not self.spec_mode:
+                self.check(st, Select(K, idx), "KeyError", node)
+            return ObjV(Select(V, idx), None)
         if isinstance(base, IterV) and base.seq is None:
             return base.elem(st, idx)
         if isinstance(base, T) and isinstance(base.sort, tuple) and base.sort[0] == "Array":
@@ -1085,7 +1093,52 @@ class Run(object):
             return Eq(App("cls", (a.items[1],), INT), I(self.engine.class_id(b.qual)))
         raise Unsupported("== on %r,%r" % (a, b))
 
+    # ------------------------------------------------------------- dictionary objects
+    # A dict that is mutated or iterated is an object of class builtins.dict with two heap fields: __keys__ (set of string keys) and
+    # __vals__ (key -> reference; scalars are boxed by uninterpreted injections).  The iteration order is keyseq(keys): a sequence
+    # that holds exactly the keys (an abstraction of insertion order: a function of the key set).
+    def as_dict(self, st, v, node=None):
+        if isinstance(v, OptV):
+            self.check(st, Not(v.isnone), "TypeError", node)
+            v = v.val
+        if not isinstance(v, ObjV):
+            raise Unsupported("dictionary operation on %r" % (v,))
+        if v.cls == "builtins.dict":
+            return v
+        if v.cls is None:
+            UFS["isdict"] = ([REF], BOOL)
+            self.check(st, App("isdict", (v.term,), BOOL), "TypeError", node)
+            return ObjV(v.term, "builtins.dict")
+        raise Unsupported("dictionary operation on an object of class " + v.cls)
+
+    def dict_arrays(self, st, d):
+        return self.read_field(st, d, "__keys__"), self.read_field(st, d, "__vals__")
+
+    def dict_keyseq(self, st, d):
+        K, V = self.dict_arrays(st, d)
+        UFS["keyseq"] = ([tm.Arr(STR, BOOL)], Seq(STR))
+        ks = App("keyseq", (K,), Seq(STR))
+        kv = Const("key!q%d" % next(_counter), STR)
+        st.assume(T("#forall", (kv, TRUE, Eq(Select(K, kv), Contains(ks, Unit(kv)))), BOOL))
+        return ks
+
+    def box(self, st, v):
+        """a python value as a dictionary value (a reference)"""
+        if isinstance(v, ObjV):
+            return v.term
+        if isinstance(v, NoneV):
+            return Const("none!ref", REF)
+        if isinstance(v, T) and v.sort in (STR, INT, BOOL):
+            nm = {STR: "box_str", INT: "box_int", BOOL: "box_bool"}[v.sort]
+            UFS[nm] = ([v.sort], REF)
+            return App(nm, (v,), REF)
+        # lists, records, ...: an opaque object (its content is not tracked through the dictionary)
+        return self.fresh("boxed", REF)
+
     def contains(self, st, container, x, node=None):
+        if isinstance(container, ObjV) and container.cls in ("builtins.dict", None) and isinstance(x, T) and x.sort == STR:
+            d = self.as_dict(st, container, node)
+            return Select(self.dict_arrays(st, d)[0], x)
         if isinstance(container, ListV):
             val = st.cells[container.cell][0]
             if val is None:
@@ -1144,7 +1197,15 @@ class Run(object):
             return RecV({})
         ref = self.fresh("new_dict", REF)
         st.ghost["#allocated"] = set(st.ghost.get("#allocated", ())) | {str(ref)}
-        return ObjV(ref, "builtins.dict")
+        d = ObjV(ref, "builtins.dict")
+        # an empty dictionary: no key at all
+        k0 = self.fresh("nokeys", tm.Arr(STR, BOOL))
+        kv = Const("key!q%d" % next(_counter), STR)
+        st.assume(T("#forall", (kv, TRUE, Not(Select(k0, kv))), BOOL))
+        self.write_field(st, d, "__keys__", k0, node)
+        UFS["isdict"] = ([REF], BOOL)
+        st.assume(App("isdict", (ref,), BOOL))
+        return d
 
     def ev_Tuple(self, node, st):
         return TupleV([self.ev(e, st) for e in node.elts])
@@ -1242,6 +1303,7 @@ class Run(object):
             if o is None:
                 raise Unsupported("%s() has no reference state here" % name)
             o2 = o.fork()
+            o2.env.update(getattr(self, "_lambda_vars", {}))  # bound variables of enclosing forall/exists are visible inside old()
             saved = self.old_state
             try:
                 v = self.ev(node.args[0], o2)
@@ -1270,9 +1332,12 @@ class Run(object):
         kv = Const("%s!q%d" % (kname, next(_counter)), INT)
         saved = st.env.get(kname)
         st.env[kname] = kv
+        lv = dict(getattr(self, "_lambda_vars", {}))
+        self._lambda_vars = dict(lv, **{kname: kv})
         try:
             body = self.truth(st, self.ev(lam.body, st))
         finally:
+            self._lambda_vars = lv
             if saved is None:
                 st.env.pop(kname, None)
             else:
@@ -1451,6 +1516,9 @@ class Run(object):
         if isinstance(v, OptV):
             self.check(st, Not(v.isnone), "TypeError", None)
             return self.to_iter(st, v.val)
+        if isinstance(v, ObjV) and v.cls in ("builtins.dict", None):
+            ks = self.dict_keyseq(st, self.as_dict(st, v))
+            return IterV(Len(ks), lambda st2, i: Nth(ks, i), ks)
         raise Unsupported("iteration over %r" % (v,))
 
     def call_method(self, st, base, name, args, kwargs, node):
@@ -1458,6 +1526,15 @@ class Run(object):
             return self.str_method(st, base, name, args, node)
         if isinstance(base, ListV):
             return self.list_method(st, base, name, args, node)
+        if isinstance(base, ObjV) and base.cls in ("builtins.dict", None) and name in ("keys", "get"):
+            d = self.as_dict(st, base, node)
+            if name == "keys" and not args:
+                return ListV(self.new_cell(st, self.dict_keyseq(st, d)), Type("str"))
+            if name == "get" and len(args) in (1, 2) and isinstance(args[0], T) and args[0].sort == STR:
+                K, V = self.dict_arrays(st, d)
+                if len(args) == 1:
+                    return OptV(Not(Select(K, args[0])), ObjV(Select(V, args[0]), None))
+                return ObjV(Ite(Select(K, args[0]), Select(V, args[0]), self.box(st, args[1])), None)
         if isinstance(base, DictV):
             if name == "get" and len(args) == 1:
                 k = self.raw(st, args[0])
@@ -2187,10 +2264,14 @@ class Run(object):
                     return
             if isinstance(base, DictV):
                 raise Unsupported("dict store")
-            if isinstance(base, ObjV) and base.cls == "builtins.dict" and not isinstance(target.slice, ast.Slice):
-                # an opaque dictionary object: the store changes its (unmodelled) content and nothing else
-                self.ev(target.slice, st)
-                self.write_field(st, base, "__items__", self.fresh("items", INT), node)
+            if isinstance(base, ObjV) and base.cls in ("builtins.dict", None) and not isinstance(target.slice, ast.Slice):
+                k = self.ev(target.slice, st)
+                if not (isinstance(k, T) and k.sort == STR):
+                    raise Unsupported("dictionary key that is not a string")
+                d = self.as_dict(st, base, node)
+                K, V = self.dict_arrays(st, d)
+                self.write_field(st, d, "__keys__", Store(K, k, TRUE), node)
+                self.write_field(st, d, "__vals__", Store(V, k, self.box(st, v)), node)
                 return
         raise Unsupported("assignment target %s" % type(target).__name__)
 
